@@ -75,6 +75,7 @@ pub fn parse_cfg(script: &str) -> Cfg {
                     }
                     "runtime" => c.runtime_ct = v == "ct",
                     "init" => c.lazy = v == "lazy",
+                    "nomodel" => {}
                     "usedir" => c.usedir = Some(v.to_string()),
                     "savedir" => c.savedir = Some(v.to_string()),
                     _ => panic!("unknown cfg key {}", k),
@@ -246,6 +247,7 @@ async fn exec<const N: usize>(st: &mut St<N>, ctx: &mut Ctx, toks: &[&str]) {
     let a = &toks[1..];
     match (c, a) {
         ("cfg", _) => ctx.emit("cfg"),
+        ("model:", _) => ctx.emit("model"),
         ("open", []) => match st.open().await {
             Ok(()) => ctx.emit("open ok"),
             Err(e) => ctx.emit(format!("open Err {}", err_class(&e))),
@@ -608,6 +610,57 @@ async fn exec<const N: usize>(st: &mut St<N>, ctx: &mut Ctx, toks: &[&str]) {
             let s = need_storage!(st, ctx, c);
             let d = s.verif_dirty_bytes().await;
             ctx.emit(format!("dirty {}", d.map(|x| x.to_string()).unwrap_or_else(|| "none".into())));
+        }
+
+        ("tool", [sub, rest @ ..]) => {
+            // offline tools through the public API (pearl::tools); files of the (closed) storage directory
+            let blob = |id: &str| st.dir.join(format!("t.{}.blob", id));
+            let index = |id: &str| st.dir.join(format!("t.{}.index", id));
+            let out = |id: &str| st.dir.join(format!("t.{}.recovered", id));
+            let r: String = match (*sub, rest) {
+                ("validate_blob", [id]) => match pearl::tools::validate_blob(&blob(id)) { Ok(()) => "ok".into(), Err(_) => "Err".into() },
+                ("validate_index", [id]) => {
+                    let p = index(id);
+                    // validate_index uses block_on internally: run it on a plain thread
+                    let res = std::thread::spawn(move || pearl::tools::validate_index::<ArrayKey<N>>(&p).is_ok()).join();
+                    match res { Ok(true) => "ok".into(), Ok(false) => "Err".into(), Err(_) => "Panic".into() }
+                }
+                ("recover", [id, every, skip]) => {
+                    let (i, o) = (blob(id), out(id));
+                    let every: usize = every.parse().unwrap();
+                    let skip = *skip == "1";
+                    let res = std::thread::spawn(move || pearl::tools::recovery_blob(&i, &o, every, skip).is_ok()).join();
+                    match res {
+                        Ok(true) => format!("ok {}", std::fs::metadata(out(id)).map(|m| m.len()).unwrap_or(0)),
+                        Ok(false) => "Err".into(),
+                        Err(_) => "Panic".into(),
+                    }
+                }
+                ("validate_out", [id]) => match pearl::tools::validate_blob(&out(id)) { Ok(()) => "ok".into(), Err(_) => "Err".into() },
+                ("outhex", [id]) => match std::fs::read(out(id)) { Ok(b) => hex_encode(&b), Err(_) => "absent".into() },
+                ("install", [id]) => {
+                    // the recovered file replaces the blob; its index file (if any) is removed
+                    let _ = std::fs::remove_file(index(id));
+                    match std::fs::rename(out(id), blob(id)) { Ok(()) => "ok".into(), Err(_) => "Err".into() }
+                }
+                ("migrate", [id, target]) => {
+                    let (i, o) = (blob(id), out(id));
+                    let t: u32 = target.parse().unwrap();
+                    let res = std::thread::spawn(move || pearl::tools::migrate_blob(&i, &o, 1, t).is_ok()).join();
+                    match res { Ok(true) => "ok".into(), Ok(false) => "Err".into(), Err(_) => "Panic".into() }
+                }
+                ("read_index", [id]) => {
+                    let p = index(id);
+                    let res = std::thread::spawn(move || pearl::tools::read_index_sync(&p).map(|m| {
+                        let mut n = 0usize; let mut keys = 0usize;
+                        for (_, v) in m.iter() { keys += 1; n += v.len(); }
+                        (keys, n)
+                    })).join();
+                    match res { Ok(Ok((k, n))) => format!("ok keys={} headers={}", k, n), Ok(Err(_)) => "Err".into(), Err(_) => "Panic".into() }
+                }
+                _ => "HARNESS-ERROR bad tool command".into(),
+            };
+            ctx.emit(format!("tool {} {}", sub, r));
         }
         ("bloom", _) => crate::bloom_cmds::cmd_bloom(ctx, a).await,
         ("hier", _) => crate::hier_cmds::cmd_hier::<N>(ctx, a).await,
